@@ -149,7 +149,7 @@ SPECS["C06"] = {
          "what": "4 ways of making a container contain itself x 12 consumers of values (log, ==, interpolation, built-ins, loops, error data)", "reach": ["before-eval", "after-eval"],
          "quick": {"unwind": 30, "wall_s": 600, "max_steps": 3000000}, "thorough": {"unwind": 30, "wall_s": 600, "max_steps": 3000000}},
         {"name": "H6-mutated-programs", "pkg": "interpreter", "files": ["interpreter/common.go", "interpreter/c07.go"], "fn": "VerifC07Mutations",
-         "what": "whatever the parser accepts evaluates without a panic: the 6 loop-free base programs of C07 (container literals nested in each other, calls, index access, sink with statematch) with one symbolic token mutation are parsed, validated and evaluated", "reach": ["parsed", "tree", "evaluated"],
+         "what": "whatever the parser accepts evaluates without a panic: the 7 loop-free base programs of C07 (container literals nested in each other, calls, index access, sink with statematch) with one symbolic token mutation are parsed, validated and evaluated", "reach": ["parsed", "tree", "evaluated"],
          "quick": {"params": {"MUT": 1, "T": 38, "EVAL": 1}, "unwind": 40, "wall_s": 900, "max_steps": 3000000},
          "thorough": {"params": {"MUT": 2, "T": 12, "EVAL": 1}, "unwind": 40, "wall_s": 3000, "max_steps": 3000000}},
         {"name": "H1-prefix-operators", "pkg": "interpreter", "files": _C06, "fn": "VerifC06PrefixOperators",
@@ -192,7 +192,7 @@ SPECS["C09"] = {
          "what": "SetWorkerCount(a) then (b, wait) with a,b in 0..2 while a task arrives", "reach": ["resized"],
          "quick": {"params": {"P": 1}, "unwind": 30, "wall_s": 300}, "thorough": {"params": {"P": 2}, "unwind": 30, "wall_s": 1500}},
         {"name": "H3-resize-seq", "pkg": "engine/pool", "files": ["pool/c09.go"], "fn": "VerifC09ResizeSeq",
-         "what": "a in 1..2 (thorough 1..3) workers, 0..a of them busy with gated tasks, then SetWorkerCount(b), SetWorkerCount(c) with b,c symbolic while the gate opens: the pool settles at c workers", "reach": ["settled"],
+         "what": "a in 1..2 (thorough 1..3) workers, 0..a of them busy with gated tasks plus a backlog of up to 2 queued tasks, then SetWorkerCount(b), SetWorkerCount(c) with b,c symbolic while the gate opens: the pool settles at c workers", "reach": ["settled"],
          "quick": {"params": {"MAXW": 2, "P": 1}, "unwind": 30, "wall_s": 600},
          "thorough": {"params": {"MAXW": 3, "P": 2}, "unwind": 30, "wall_s": 3000}},
         {"name": "H4-rounds", "pkg": "engine/pool", "files": ["pool/c09.go"], "fn": "VerifC09Rounds",
@@ -356,7 +356,7 @@ SPECS["C07"] = {
         for (k, t, q) in ((1, 38, True), (2, 38, True), (3, 12, True), (3, 38, False), (4, 12, False))
     ] + [
         {"name": "H3-mutations-%d" % m, "pkg": "interpreter", "files": _C07, "fn": "VerifC07Mutations",
-         "what": "15 base programs, %d symbolic mutation(s) (replace by one of %d texts / delete / duplicate)" % (m, t), "reach": ["parsed", "tree"],
+         "what": "16 base programs, %d symbolic mutation(s) (replace by one of %d texts / delete / duplicate)" % (m, t), "reach": ["parsed", "tree"],
          "quick": {"params": {"MUT": m, "T": t}, "unwind": 40, "wall_s": 600} if m == 1 else None,
          "thorough": {"params": {"MUT": m, "T": t}, "unwind": 40, "wall_s": 3000}}
         for (m, t) in ((1, 38), (2, 12))
@@ -419,13 +419,16 @@ SPECS["C12"] = {
         {"name": "H2-handover", "pkg": "interpreter", "files": _C12, "fn": "VerifC12Handover",
          "what": "gated hand-over: A inside, B waiting, A leaves (5 exit kinds), B inside, a third entrant (new thread or A's id again) must wait; then all finish and a later entrant gets in", "reach": ["third-entrant-arrived", "later-entrant-done"],
          "quick": {"unwind": 60, "wall_s": 600}, "thorough": {"unwind": 60, "wall_s": 600}},
+        {"name": "H3-sink-threads", "pkg": "interpreter", "files": _C12, "fn": "VerifC12SinkThreads",
+         "what": "the contending threads are sink invocations on two pool workers: first invocation held inside the block by a gate, the second waits; no lost update", "reach": ["second-invocation-arrived", "all-done"],
+         "quick": {"unwind": 60, "wall_s": 600}, "thorough": {"unwind": 60, "wall_s": 600}},
         {"name": "H1-threads-3", "pkg": "interpreter", "files": _C12, "fn": "VerifC12Mutex",
          "what": "3 threads on one name, P=1", "reach": ["all-done", "later-entrant-done"],
          "quick": None,
          "thorough": {"params": {"T": 3, "P": 1, "NAMES": 1}, "unwind": 60, "wall_s": 3000}},
     ],
     "assumptions": ["pre-emptions only at sync operations (the probes add one inside each block)", "sequential consistency"],
-    "outside": ["> 3 threads", "nesting > 2", "threads created via sinks on pool workers (same mutexRuntime code, tids from the pool)"],
+    "outside": ["> 3 threads", "nesting > 2"],
 }
 
 _C11 = ["interpreter/common.go", "interpreter/c11.go"]
@@ -603,6 +606,11 @@ SPECS["C20"] = {
          "reach": ["packed", "ran"],
          "quick": {"params": {"SIZES": 6, "CHUNK": 7}, "unwind": 5000, "wall_s": 900, "max_steps": 50000000, "interp_extra": _C20X},
          "thorough": {"params": {"SIZES": 8, "CHUNK": 5}, "unwind": 5000, "wall_s": 3000, "max_steps": 200000000, "interp_extra": _C20X}},
+        {"name": "H2-tree-dir-spellings", "pkg": "cli/tool", "files": ["tool/memfs.go", "tool/c20.go"], "fn": "VerifC20Tree",
+         "what": "same, the project directory spelled in 5 ways (plain, trailing separator, ./, x/../, /.): every packed file is found under its path relative to the directory",
+         "reach": ["packed", "ran"],
+         "quick": {"params": {"SIZES": 2, "CHUNK": 7, "SPELLINGS": 5}, "unwind": 5000, "wall_s": 900, "max_steps": 80000000, "interp_extra": _C20X},
+         "thorough": {"params": {"SIZES": 4, "CHUNK": 5, "SPELLINGS": 5}, "unwind": 5000, "wall_s": 3000, "max_steps": 200000000, "interp_extra": _C20X}},
         {"name": "H2-tree-repack", "pkg": "cli/tool", "files": ["tool/memfs.go", "tool/c20.go"], "fn": "VerifC20Tree",
          "what": "same, the target optionally already holds the result of packing another, larger project (re-pack into the same file)",
          "reach": ["packed", "ran"],
